@@ -49,7 +49,11 @@ Record st := mkSt {
   zz : list Z;                 (* values of the traits zz0, zz1, ... added with add_trait (the filter matches them) *)
   ade : Z;                     (* ade = Either(Supports(IProto), Instance(Q)): stored atom, -5 = None *)
   pv : option Z;               (* pv = PrototypedFrom("deleg"): the local copy; None = still linked to the prototype *)
-  dpv : Z                      (* deleg.pv = V(): the prototype's own value *)
+  dpv : Z;                     (* deleg.pv = V(): the prototype's own value *)
+  ch : option Z;               (* child = Instance(Child) with a _child_default method: None = not created yet,
+                                  Some v = created, its `value` trait holds v *)
+  chreg : bool;                (* on_trait_change(h10, 'child.value') is registered *)
+  u : Z                        (* u = Union(V(), Str()) *)
 }.
 
 Inductive op :=
@@ -76,7 +80,12 @@ Inductive op :=
                                               (faulted object vs twin) speaks about it *)
 | SetPV (v : Z)                            (* a.pv = v: validated by the prototype's trait, stored locally; breaks the link *)
 | SetDPV (v : Z)                           (* a.deleg.pv = v: forwarded to a's handler while a holds no local copy *)
-| DelPV.                                   (* del a.pv: drops the local copy, restores the link *)
+| DelPV                                    (* del a.pv: drops the local copy, restores the link *)
+| RegDot | UnregDot                        (* on_trait_change(h10, 'child.value') / the same with remove=True: hooking up
+                                              reads a.child and so runs _child_default when the child does not exist yet *)
+| ReadCh                                   (* a.child *)
+| SetCV (v : Z)                            (* a.child.value = v *)
+| SetU (v : Z).                            (* a.u = v: the custom validator is the first alternative of a Union *)
 
 (* handler identities *)
 Definition H_x_static := 0%nat.     (* _x_changed *)
@@ -86,6 +95,7 @@ Definition H_l_static := 3%nat.     (* _l_items_changed *)
 Definition H_l_observe := 4%nat.    (* observe(h, 'l:items') *)
 Definition H_y_static := 5%nat.     (* _y_changed *)
 Definition H_z_observe := 6%nat.    (* the observer registered with the user filter *)
+Definition H_cv_dynamic := 10%nat.  (* on_trait_change(h, 'child.value') *)
 Definition H_pv_dynamic := 9%nat.   (* on_trait_change(h, 'pv') on the deferring object (7, 8: outside the model) *)
 
 Definition logent := (nat * Z * Z)%type.
@@ -157,24 +167,28 @@ Section WithCallbacks.
   Definition run_handlers (pl : plan) (hs : list nat) (a b : Z) : list logent :=
     map (fun j => (j, a, b)) (filter (fun j => negb (handler_fault pl j)) hs).
 
-  Definition set_x v s0 := mkSt v (t s0) (l s0) (d s0) (s s0) (f s0) (m s0) (p s0) (c s0) (ad s0) (y s0) (ad2 s0) (oreg s0) (zz s0) (ade s0) (pv s0) (dpv s0).
-  Definition set_t v s0 := mkSt (x s0) v (l s0) (d s0) (s s0) (f s0) (m s0) (p s0) (c s0) (ad s0) (y s0) (ad2 s0) (oreg s0) (zz s0) (ade s0) (pv s0) (dpv s0).
-  Definition set_l v s0 := mkSt (x s0) (t s0) v (d s0) (s s0) (f s0) (m s0) (p s0) (c s0) (ad s0) (y s0) (ad2 s0) (oreg s0) (zz s0) (ade s0) (pv s0) (dpv s0).
-  Definition set_d v s0 := mkSt (x s0) (t s0) (l s0) v (s s0) (f s0) (m s0) (p s0) (c s0) (ad s0) (y s0) (ad2 s0) (oreg s0) (zz s0) (ade s0) (pv s0) (dpv s0).
-  Definition set_s v s0 := mkSt (x s0) (t s0) (l s0) (d s0) v (f s0) (m s0) (p s0) (c s0) (ad s0) (y s0) (ad2 s0) (oreg s0) (zz s0) (ade s0) (pv s0) (dpv s0).
-  Definition set_f v s0 := mkSt (x s0) (t s0) (l s0) (d s0) (s s0) v (m s0) (p s0) (c s0) (ad s0) (y s0) (ad2 s0) (oreg s0) (zz s0) (ade s0) (pv s0) (dpv s0).
-  Definition set_m v s0 := mkSt (x s0) (t s0) (l s0) (d s0) (s s0) (f s0) v (p s0) (c s0) (ad s0) (y s0) (ad2 s0) (oreg s0) (zz s0) (ade s0) (pv s0) (dpv s0).
-  Definition set_p v s0 := mkSt (x s0) (t s0) (l s0) (d s0) (s s0) (f s0) (m s0) v (c s0) (ad s0) (y s0) (ad2 s0) (oreg s0) (zz s0) (ade s0) (pv s0) (dpv s0).
-  Definition set_c v s0 := mkSt (x s0) (t s0) (l s0) (d s0) (s s0) (f s0) (m s0) (p s0) v (ad s0) (y s0) (ad2 s0) (oreg s0) (zz s0) (ade s0) (pv s0) (dpv s0).
-  Definition set_ad v s0 := mkSt (x s0) (t s0) (l s0) (d s0) (s s0) (f s0) (m s0) (p s0) (c s0) v (y s0) (ad2 s0) (oreg s0) (zz s0) (ade s0) (pv s0) (dpv s0).
-  Definition set_y v s0 := mkSt (x s0) (t s0) (l s0) (d s0) (s s0) (f s0) (m s0) (p s0) (c s0) (ad s0) v (ad2 s0) (oreg s0) (zz s0) (ade s0) (pv s0) (dpv s0).
-  Definition set_ad2 v s0 := mkSt (x s0) (t s0) (l s0) (d s0) (s s0) (f s0) (m s0) (p s0) (c s0) (ad s0) (y s0) v (oreg s0) (zz s0) (ade s0) (pv s0) (dpv s0).
-  Definition set_oreg v s0 := mkSt (x s0) (t s0) (l s0) (d s0) (s s0) (f s0) (m s0) (p s0) (c s0) (ad s0) (y s0) (ad2 s0) v (zz s0) (ade s0) (pv s0) (dpv s0).
-  Definition set_zz v s0 := mkSt (x s0) (t s0) (l s0) (d s0) (s s0) (f s0) (m s0) (p s0) (c s0) (ad s0) (y s0) (ad2 s0) (oreg s0) v (ade s0) (pv s0) (dpv s0).
-  Definition set_ade v s0 := mkSt (x s0) (t s0) (l s0) (d s0) (s s0) (f s0) (m s0) (p s0) (c s0) (ad s0) (y s0) (ad2 s0) (oreg s0) (zz s0) v (pv s0) (dpv s0).
+  Definition set_x v s0 := mkSt v (t s0) (l s0) (d s0) (s s0) (f s0) (m s0) (p s0) (c s0) (ad s0) (y s0) (ad2 s0) (oreg s0) (zz s0) (ade s0) (pv s0) (dpv s0) (ch s0) (chreg s0) (u s0).
+  Definition set_t v s0 := mkSt (x s0) v (l s0) (d s0) (s s0) (f s0) (m s0) (p s0) (c s0) (ad s0) (y s0) (ad2 s0) (oreg s0) (zz s0) (ade s0) (pv s0) (dpv s0) (ch s0) (chreg s0) (u s0).
+  Definition set_l v s0 := mkSt (x s0) (t s0) v (d s0) (s s0) (f s0) (m s0) (p s0) (c s0) (ad s0) (y s0) (ad2 s0) (oreg s0) (zz s0) (ade s0) (pv s0) (dpv s0) (ch s0) (chreg s0) (u s0).
+  Definition set_d v s0 := mkSt (x s0) (t s0) (l s0) v (s s0) (f s0) (m s0) (p s0) (c s0) (ad s0) (y s0) (ad2 s0) (oreg s0) (zz s0) (ade s0) (pv s0) (dpv s0) (ch s0) (chreg s0) (u s0).
+  Definition set_s v s0 := mkSt (x s0) (t s0) (l s0) (d s0) v (f s0) (m s0) (p s0) (c s0) (ad s0) (y s0) (ad2 s0) (oreg s0) (zz s0) (ade s0) (pv s0) (dpv s0) (ch s0) (chreg s0) (u s0).
+  Definition set_f v s0 := mkSt (x s0) (t s0) (l s0) (d s0) (s s0) v (m s0) (p s0) (c s0) (ad s0) (y s0) (ad2 s0) (oreg s0) (zz s0) (ade s0) (pv s0) (dpv s0) (ch s0) (chreg s0) (u s0).
+  Definition set_m v s0 := mkSt (x s0) (t s0) (l s0) (d s0) (s s0) (f s0) v (p s0) (c s0) (ad s0) (y s0) (ad2 s0) (oreg s0) (zz s0) (ade s0) (pv s0) (dpv s0) (ch s0) (chreg s0) (u s0).
+  Definition set_p v s0 := mkSt (x s0) (t s0) (l s0) (d s0) (s s0) (f s0) (m s0) v (c s0) (ad s0) (y s0) (ad2 s0) (oreg s0) (zz s0) (ade s0) (pv s0) (dpv s0) (ch s0) (chreg s0) (u s0).
+  Definition set_c v s0 := mkSt (x s0) (t s0) (l s0) (d s0) (s s0) (f s0) (m s0) (p s0) v (ad s0) (y s0) (ad2 s0) (oreg s0) (zz s0) (ade s0) (pv s0) (dpv s0) (ch s0) (chreg s0) (u s0).
+  Definition set_ad v s0 := mkSt (x s0) (t s0) (l s0) (d s0) (s s0) (f s0) (m s0) (p s0) (c s0) v (y s0) (ad2 s0) (oreg s0) (zz s0) (ade s0) (pv s0) (dpv s0) (ch s0) (chreg s0) (u s0).
+  Definition set_y v s0 := mkSt (x s0) (t s0) (l s0) (d s0) (s s0) (f s0) (m s0) (p s0) (c s0) (ad s0) v (ad2 s0) (oreg s0) (zz s0) (ade s0) (pv s0) (dpv s0) (ch s0) (chreg s0) (u s0).
+  Definition set_ad2 v s0 := mkSt (x s0) (t s0) (l s0) (d s0) (s s0) (f s0) (m s0) (p s0) (c s0) (ad s0) (y s0) v (oreg s0) (zz s0) (ade s0) (pv s0) (dpv s0) (ch s0) (chreg s0) (u s0).
+  Definition set_oreg v s0 := mkSt (x s0) (t s0) (l s0) (d s0) (s s0) (f s0) (m s0) (p s0) (c s0) (ad s0) (y s0) (ad2 s0) v (zz s0) (ade s0) (pv s0) (dpv s0) (ch s0) (chreg s0) (u s0).
+  Definition set_zz v s0 := mkSt (x s0) (t s0) (l s0) (d s0) (s s0) (f s0) (m s0) (p s0) (c s0) (ad s0) (y s0) (ad2 s0) (oreg s0) v (ade s0) (pv s0) (dpv s0) (ch s0) (chreg s0) (u s0).
+  Definition set_ade v s0 := mkSt (x s0) (t s0) (l s0) (d s0) (s s0) (f s0) (m s0) (p s0) (c s0) (ad s0) (y s0) (ad2 s0) (oreg s0) (zz s0) v (pv s0) (dpv s0) (ch s0) (chreg s0) (u s0).
 
-  Definition set_pv v s0 := mkSt (x s0) (t s0) (l s0) (d s0) (s s0) (f s0) (m s0) (p s0) (c s0) (ad s0) (y s0) (ad2 s0) (oreg s0) (zz s0) (ade s0) v (dpv s0).
-  Definition set_dpv v s0 := mkSt (x s0) (t s0) (l s0) (d s0) (s s0) (f s0) (m s0) (p s0) (c s0) (ad s0) (y s0) (ad2 s0) (oreg s0) (zz s0) (ade s0) (pv s0) v.
+  Definition set_pv v s0 := mkSt (x s0) (t s0) (l s0) (d s0) (s s0) (f s0) (m s0) (p s0) (c s0) (ad s0) (y s0) (ad2 s0) (oreg s0) (zz s0) (ade s0) v (dpv s0) (ch s0) (chreg s0) (u s0).
+  Definition set_dpv v s0 := mkSt (x s0) (t s0) (l s0) (d s0) (s s0) (f s0) (m s0) (p s0) (c s0) (ad s0) (y s0) (ad2 s0) (oreg s0) (zz s0) (ade s0) (pv s0) v (ch s0) (chreg s0) (u s0).
+
+  Definition set_ch v s0 := mkSt (x s0) (t s0) (l s0) (d s0) (s s0) (f s0) (m s0) (p s0) (c s0) (ad s0) (y s0) (ad2 s0) (oreg s0) (zz s0) (ade s0) (pv s0) (dpv s0) v (chreg s0) (u s0).
+  Definition set_chreg v s0 := mkSt (x s0) (t s0) (l s0) (d s0) (s s0) (f s0) (m s0) (p s0) (c s0) (ad s0) (y s0) (ad2 s0) (oreg s0) (zz s0) (ade s0) (pv s0) (dpv s0) (ch s0) v (u s0).
+  Definition set_u v s0 := mkSt (x s0) (t s0) (l s0) (d s0) (s s0) (f s0) (m s0) (p s0) (c s0) (ad s0) (y s0) (ad2 s0) (oreg s0) (zz s0) (ade s0) (pv s0) (dpv s0) (ch s0) (chreg s0) v.
 
   Definition raise (e : exn) (s0 : st) : st * outcome * list logent := (s0, Raise e, []).
   Definition done (s1 : st) (lg : list logent) : st * outcome * list logent := (s1, Ok, lg).
@@ -396,6 +410,48 @@ Section WithCallbacks.
         | None => done s0 []
         | Some o => if Z.eqb o (dpv s0) then done (set_pv None s0) []
                     else done (set_pv None s0) (run_handlers pl [H_pv_dynamic] o (dpv s0))
+        end
+    | RegDot =>                                   (* has_traits.py on_trait_change, traits_listener.py: an equal handler
+                                                    is registered once; hooking up reads a.child (creating it through
+                                                    the user's default method); a failing hook-up is rolled back *)
+        if chreg s0 then done s0 []
+        else match ch s0 with
+             | Some _ => done (set_chreg true s0) []
+             | None => match call_plain pl 0 with
+                       | Some e => raise e s0
+                       | None => done (set_chreg true (set_ch (Some 0) s0)) []
+                       end
+             end
+    | UnregDot => if chreg s0 then done (set_chreg false s0) [] else done s0 []   (* unknown handler: silently nothing *)
+    | ReadCh =>
+        match ch s0 with
+        | Some _ => done s0 []
+        | None => match call_plain pl 0 with
+                  | Some e => raise e s0
+                  | None => done (set_ch (Some 0) s0) []
+                  end
+        end
+    | SetCV v =>
+        match ch s0 with
+        | Some old => if Z.eqb v old then done s0 []
+                      else done (set_ch (Some v) s0) (if chreg s0 then run_handlers pl [H_cv_dynamic] old v else [])
+        | None => match call_plain pl 0 with
+                  | Some e => raise e s0
+                  | None => if Z.eqb v 0 then done (set_ch (Some 0) s0) []
+                            else done (set_ch (Some v) s0) []          (* not created yet, hence not hooked *)
+                  end
+        end
+    | SetU v =>                                   (* trait_types.py Union.validate: only TraitError moves on to the next
+                                                    alternative (Str, which accepts the string atoms >= 100); any other
+                                                    exception of the first alternative reaches the caller.  An INJECTED
+                                                    TraitError on a string atom is by definition a rejection, not a
+                                                    fault (DESIGN 6a): the generator does not produce that plan *)
+        match call_plain pl 0 with
+        | Some e => raise e s0
+        | None => match vld v with
+                  | Some y => done (set_u y s0) []
+                  | None => if Z.leb 100 v then done (set_u v s0) [] else raise TraitError s0
+                  end
         end
     end.
 
